@@ -241,7 +241,7 @@ def text(summary):
 
 
 def compare(ctx, rule, construct, where, what, found_paths, refs, names=None, hook=None, raises=True, fact=None, why="",
-            track=(), rewrite=None, undecided=None):
+            track=(), rewrite=None, undecided=None, strict_expr=False):
     """undecided: a reason why a difference between the summaries cannot be called a violation (e.g. the function contains
     nested function definitions, whose bodies are outside the summary)"""
     canon = Canon(atom_hook=hook, rewrite=rewrite)
@@ -271,6 +271,70 @@ def compare(ctx, rule, construct, where, what, found_paths, refs, names=None, ho
         extra = set(extra) | {"nested function definitions"}
     if undecided:
         extra = set(extra) | {undecided}
+    if strict_expr and not extra:
+        # reference rules: a difference is called a violation when it is structural (another sequence of calls / stores /
+        # results, other callees or targets, other plain operands) or lies in a fragment the canonical form decides completely
+        # (polynomials against polynomials; truth tables over the same leaves).  A difference confined to operator
+        # expressions outside those fragments (comparisons of bit expressions, shifts, mixed arithmetic) may be a re-spelling.
+        EXPR = {"tt", "cmp", "shr", "shl", "poly", "mask", "mod", "floordiv", "pow", "ifexp", "bitexpr", "and", "or", "not"}
+
+        def skel(t, out):
+            if isinstance(t, frozenset):
+                return frozenset(skel(x, out) for x in t)
+            if isinstance(t, tuple):
+                if t and isinstance(t[0], str) and t[0] in EXPR:
+                    out.append(t)
+                    return ("expr",)
+                return tuple(skel(x, out) for x in t)
+            return t
+
+        def leaves(t, acc):
+            if isinstance(t, (tuple, frozenset)):
+                if isinstance(t, tuple) and t and t[0] in ("name", "attr", "int", "const", "call", "index"):
+                    acc.add(t)
+                    return
+                for x in t:
+                    leaves(x, acc)
+
+        ef = []
+        sf = skel(frozenset(found), ef)
+        for w in wants:
+            ew = []
+            if skel(frozenset(w), ew) != sf:
+                continue
+            import collections
+            df = list((collections.Counter(ef) - collections.Counter(ew)).elements())
+            dw = list((collections.Counter(ew) - collections.Counter(ef)).elements())
+            lf, lw = set(), set()
+            for t in df:
+                leaves(t, lf)
+            for t in dw:
+                leaves(t, lw)
+            pure = all(t[0] in ("poly", "tt") for t in df + dw) and lf == lw
+
+            def atoms(t, acc):
+                if isinstance(t, tuple) and t and t[0] in ("and", "or", "not"):
+                    for x in t[1:]:
+                        atoms(x, acc) if isinstance(x, tuple) else None
+                    if len(t) > 1 and isinstance(t[1], frozenset):
+                        for x in t[1]:
+                            atoms(x, acc)
+                elif isinstance(t, tuple) and len(t) == 4 and t[0] == "cmp" and t[1] in Canon._NEG:
+                    # a comparison and its complement are the same atom
+                    acc.add(("cmp", min(t[1], Canon._NEG[t[1]]), t[2], t[3]))
+                else:
+                    acc.add(t)
+            if not pure:
+                # the same atomic conditions recombined (one dropped, negated, and/or exchanged) is a decided difference
+                known, used = set(), set()
+                for t in ew:
+                    atoms(t, known)
+                for t in df:
+                    atoms(t, used)
+                pure = bool(df or dw) and used <= known
+            if not pure:
+                extra = {"an expression spelt differently (" + text_terms(df)[:120] + " for " + text_terms(dw)[:120] + ")"}
+            break
     if not (ref_voc & {"tt", "mask", "shl", "shr", "bitexpr", "mod", "floordiv", "pow"}):
         # a reference without bit-level or division constructs: integer polynomials are compared exactly by the canonical form
         extra -= {"poly@value", "poly@width"}
@@ -284,6 +348,11 @@ def compare(ctx, rule, construct, where, what, found_paths, refs, names=None, ho
         raise AnalysisError(msg)
     ctx.viol(rule, construct, f"{what} computes `{text(found)[:500]}`; required: `{text(wants[0])[:500]}`. {why}".strip(), where)
     return False
+
+
+def text_terms(terms):
+    from ..rules.evalspec import term_text
+    return "; ".join(term_text(t) for t in terms)
 
 
 def inline_table(model, rel, cls=None, exclude=()):
